@@ -209,6 +209,29 @@ type C11 struct {
 
 func (*C11) Property() string { return "C11" }
 
+// Init: the rates in force at the start are the configured ones (the genesis file is the configuration).
+func (o *C11) Init(w *World) {
+	infos := w.ReadState().TokenInfos()
+	for _, tk := range w.Cfg.Tokens {
+		w.St.Check("C11:configured-rate")
+		found := false
+		for _, ti := range infos {
+			if ti.ChainId == tk.Chain && ti.ExternalTokenId == tk.ExtID {
+				found = true
+				want, _ := sdk.NewDecFromStr(tk.Commission)
+				if !ti.Commission.Equal(want) || ti.ExternalDecimals != tk.Decimals || ti.Denom != tk.Denom {
+					w.Fail("C11", "commission", "configured", fmt.Sprintf("token %s on %s is configured with commission %s, %d decimals, denom %s; the hub starts with commission %s, %d decimals, denom %s", tk.ExtID, tk.Chain, tk.Commission, tk.Decimals, tk.Denom, ti.Commission, ti.ExternalDecimals, ti.Denom))
+					return
+				}
+			}
+		}
+		if !found {
+			w.Fail("C11", "commission", "configured", fmt.Sprintf("configured token %s on %s is missing from the hub's token list", tk.ExtID, tk.Chain))
+			return
+		}
+	}
+}
+
 func (o *C11) BeforeTx(w *World, tx *PendingTx) {
 	switch tx.Kind {
 	case "user_send", "user_cancel", "req_batch":
